@@ -67,6 +67,29 @@ def rh_jobs(js):
                        what='BitArray<%d>: %s, from any well-formed state' % (nb, wh))
 
 
+def rh_class_jobs(js):
+    """RadixHeap<K, identity, K, Radix> itself, from an arbitrary well-formed heap (contracts/c13_radixheap_class.c)"""
+    RHF = r'tlx::RadixHeap<.*>::'
+    for radix, kn, t in [(2, 'i8', 'quick'), (4, 'u8', 'thorough')]:
+        kt, bits, sg = KEYS[kn]
+        nb = rh_num_buckets(radix, bits)
+        sd = ['KEY_T=%s' % kt, 'RADIX=%d' % radix]
+        d = sd + ['KBITS=%d' % bits, 'KSIGNED=%d' % sg, 'NB=%d' % nb, 'CAP=3', 'TOT=3']
+        for name, op, enf, fns, extra, what in [
+                ('push', 'push', 'c_push', [r'push\(', r'push_to_bucket\('], [], 'push(k), k not below the last top()/pop(): invariant, contents + {k}, returned bucket'),
+                ('top', 'top', 'c_top', [r'top\(\)', r'reorganize_\(\)'], ['WHICH=0'], 'top() is a smallest stored key; contents unchanged; invariant with the new frontier'),
+                ('peak_top_key', 'top', 'c_top', [r'peak_top_key\(\)'], ['WHICH=1'], 'peak_top_key() is the smallest stored key and changes nothing'),
+                ('pop', 'pop', 'c_pop', [r'pop\(\)', r'reorganize_\(\)'], [], 'pop() removes exactly one occurrence of the smallest key'),
+                ('clear', 'clear', 'c_clear', [r'clear\(\)', r'initialize_\(\)'], [], 'clear(): empty and indistinguishable from a new heap')]:
+            js.append(Job(name='rhc_%s_r%d_%s' % (name, radix, kn), shim='radixheap', contract='c13_radixheap_class.c', harness='h_rhc_' + name, enforce=[enf], shim_defines=sd,
+                          defines=['OP_' + op] + d + extra, functions=[RHF + x for x in fns], unwind=nb + 3, tier=t, timeout=1500, mode='assert', object_bits=10, mem_gb=4,
+                          resolve={'REALLOC_C': r'_M_realloc_insert<(un)?signed char const&>', 'REALLOC_M': r'_M_realloc_insert<(un)?signed char>\('},
+                          resolve_types={'RH_T': r'^S_class_tlx__RadixHeap$', 'VEC_T': r'^S_class_std__vector$'},
+                          replace_calls=[('REALLOC_C', 'stub_no_realloc_insert'), ('REALLOC_M', 'stub_no_realloc_insert')],
+                          label='bounded: at most 3 keys in the heap (every distribution over the %d buckets), all %d-bit keys, radix %d; one step from any well-formed heap' % (nb, bits, radix),
+                          what='RadixHeap<%s, radix %d>: %s' % (kt, radix, what)))
+
+
 def jobs(tier):
     js = []
     cfgs = [(2, 0, 'quick'), (3, 1, 'quick'), (1, 0, 'thorough'), (4, 0, 'thorough'), (8, 0, 'thorough'), (2, 1, 'thorough'), (3, 0, 'thorough')]
@@ -115,6 +138,7 @@ def jobs(tier):
         D('observe', 'observe', 'c_observe', [r'size\(\) const', r'empty\(\) const', r'top\(\) const'], what='DAryHeap size/empty/top')
         D('clear', 'clear', 'c_clear', [r'clear\(\)'], what='DAryHeap clear()')
     rh_jobs(js)
+    rh_class_jobs(js)
     return js
 
 
